@@ -412,6 +412,18 @@ impl Scenario for C11 {
         }
     }
 
+    fn sweep_targets(&self, ctx: &Ctx) -> (Vec<(Address, &'static str, &'static [&'static str])>, Vec<Address>) {
+        let iw = &ctx.iw;
+        (
+            vec![
+                (iw.its.clone(), "/repo/contracts/interchain-token-service/src", &axmc::inventory::ITS_KNOWN[..]),
+                (iw.gw.clone(), "/repo/contracts/axelar-gateway/src", &axmc::inventory::GATEWAY_KNOWN[..]),
+                (iw.gas.clone(), "/repo/contracts/axelar-gas-service/src", &axmc::inventory::GAS_KNOWN[..]),
+            ],
+            vec![iw.users[0].clone(), iw.users[1].clone(), iw.its.clone()],
+        )
+    }
+
     fn must_succeed_kinds(&self) -> Vec<&'static str> {
         vec!["deploy", "register_canonical", "remote_deploy"]
     }
